@@ -174,7 +174,14 @@ def run(repo, rep):
                     rep.undecided('C11.b', 'children[%s,%s,n=%d]' % (base, 'native' if native else 'subclass', k), m.relpath, str(e))
                     continue
                 for pr, t, ph in res:
-                    if pr.raised is not None or t is None:
+                    if pr.raised is not None:
+                        # a container printer that raises degrades the value to its plain repr - which ignores the depth limit
+                        nc += 1
+                        rep.fail('C11.c', '%s[%s,%s,n=%d]:raises{%s}' % (fn.name, base, 'native' if native else 'subclass', k, pr.fact_text()[:60]), fn.where,
+                                 '%s raises %s on the path (%s): the value falls back to repr(value), which prints everything below the cut'
+                                 % (fn.name, pr.raised.what[:80], pr.fact_text()[:100]))
+                        continue
+                    if t is None:
                         continue
                     lab = '%s[%s,%s,n=%d]' % (fn.name, base, 'native' if native else 'subclass', k)
                     ch = subs(t, [])
